@@ -143,6 +143,8 @@ def analyse(text, regions, r):
         errors.append(dict(kind=kind, message=msg, fn=fn, part=spart, site_line=sl, site_tags=sorted(stags),
                            site_text=lines[sl - 1].strip() if 0 < sl <= len(lines) else '',
                            clause_line=cl, clause_part=cpart, clause_tags=sorted(ctags),
+                           clause_line_end=(clause or {}).get('line_end'), clause_col=(clause or {}).get('column_start'),
+                           clause_col_end=(clause or {}).get('column_end'),
                            clause_text=lines[cl - 1].strip() if 0 < cl <= len(lines) else ''))
     funcs = {}
     if r.json:
